@@ -300,3 +300,28 @@ WIP_UNITS.append(U(
     sub='htp_parse_uri for targets of ANY length: memory safety, termination, every component is taken from inside the target, and the full adjacency chain over the '
         'provenance log (scheme at 0 + ":", "//", user [":" password] "@", host [":" port], path, "?" query, "#" fragment, last component ends where the trailing '
         "spaces begin); '/'-targets have no scheme/authority"))
+
+# ======================================================================================================
+# 5. the bstr model used by the ref_parse_uri* units agrees with the real bstr_dup_mem / bstr_free (bstr.c linked, no model)
+# ======================================================================================================
+DUP_H = COMMON + r'''
+typedef struct { unsigned char a[N ? N : 1]; size_t la; } vin_t;
+static void run(const unsigned char *a, size_t la) {
+  bstr *b = bstr_dup_mem(a, la);
+  if (b != NULL) {
+    VASSERT(b->len == la && b->size == la && b->realptr == NULL, "real bstr_dup_mem: inline bstr with len == size == requested length (as in the model)");
+    for (size_t i = 0; i < la; i++) VASSERT(CB(b)[i] == a[i], "real bstr_dup_mem: byte-identical copy (as in the model)");
+  }
+  bstr_free(b);      /* NULL accepted, nothing leaks */
+}
+#define CASE(K) if (in.la == (K)) run(in.a, (K));
+void HARNESS(void) { VIN(vin_t);
+  VASSUME(in.la <= N);
+''' + CASES + r'''  CANARY(); }'''
+UNITS.append(U(
+    name='c13_dup_model_lemma', props=['C13'], kind='bounded', src=['htp_util.c'], link=['bstr.c'], replay='vin', contracts_inc=['uri_ref.h', 'c13_uri.h'],
+    harness=DUP_H, defs={'quick': {'N': 10}}, flags_add=['--unwind', '12', '--unwinding-assertions', '--memory-leak-check'], flags_del=['--unsigned-overflow-check'],
+    bound='all source strings of every length 0..10 (the largest N of any ref_parse_uri* unit)', timeout=(300, 600),
+    assumes=['bounded: lengths 0..10, enumerated as constants'],
+    sub='the real bstr_dup_mem / bstr_free (bstr.c) behave like the fixed-capacity model C13_BSTR_MODEL that the ref_parse_uri* units use: '
+        'NULL or an inline bstr with len == size == n and a byte-identical copy; bstr_free(NULL) is a no-op; no leak'))
